@@ -286,13 +286,20 @@ theorem table_of_pairs_congr {t : Table} {A B : List (Int × Int)} {F : Int → 
       (by obtain ⟨e, he, hk⟩ := hk2; exact ⟨e, List.mem_reverse.mpr he, hk⟩)
   rw [l1, l2]
 
-/-- **The as-written code with today's rule is the hand-written model** (`⌈q⌉` for a float factor; `pres = none`
-for `preserve_nodes=None`; the soma ids, which navis appends to the fix points, act as preserved nodes). -/
+/-- A floored factor compared with an integer counter: `⌈(⌊q⌋ : Rat)⌉ = ⌊q⌋`. -/
+theorem effFactor_rule0 (q : Option Rat) : (effFactor walkRule0 q).map ceilNat = q.map floorNat := by
+  cases q with
+  | none => rfl
+  | some f => simp [effFactor, walkRule0, ceilNat, floorNat]
+
+/-- **The as-written code with today's rule is the hand-written model** (`⌊q⌋` for a float factor: it is rounded down
+before the walk; `pres = none` for `preserve_nodes=None`; the soma ids, which navis appends to the fix points, act as
+preserved nodes). -/
 theorem downsampleG_rule0 {t : Table} (hw : WF t) (q : Option Rat) (pres : Option (List Int)) (soma : List Int)
     (hs : ∀ s ∈ soma, s ∈ ids t) :
-    downsampleG walkRule0 t q pres soma = downsample t (q.map ceilNat) (pres.getD [] ++ soma) := by
+    downsampleG walkRule0 t q pres soma = downsample t (q.map floorNat) (pres.getD [] ++ soma) := by
   have hpos := hw.2.1
-  rw [downsample_eq]
+  rw [← effFactor_rule0, downsample_eq]
   unfold downsampleG
   have e0 : walkRule0.smallCmp.evalInt (t.length : Int) walkRule0.smallK = decide (t.length ≤ 1) := by
     simp only [walkRule0, Cmp.evalInt]
@@ -307,7 +314,7 @@ theorem downsampleG_rule0 {t : Table} (hw : WF t) (q : Option Rat) (pres : Optio
         dsFix t (pres.getD [] ++ soma) := funext (fix_contains_rule0 hw pres soma hs)
     rw [hstop]
     congr 1
-    apply table_of_pairs_congr (F := fun k => (recG walkRule0 t (dsFix t (pres.getD [] ++ soma)) q k).1)
+    apply table_of_pairs_congr (F := fun k => (recG walkRule0 t (dsFix t (pres.getD [] ++ soma)) (effFactor walkRule0 q) k).1)
     · intro e he
       obtain ⟨s, _, hes⟩ := List.mem_flatMap.mp he
       exact walkG_functional _ _ _ _ _ _ e hes
